@@ -11,12 +11,15 @@ PID = "C02"
 LEAN_MODULE = "NiVerif.Props.C02"
 NAMESPACE = "Props.C02"
 DRIVER = "drivers/C02.lean"
-GEN_MODULES = ["TimeValueTuple", "TimeDelta", "DateTime", "BtDtypes"]
+GEN_MODULES = ["TimeValueTuple", "TimeDelta", "DateTime", "BtDtypes", "BtElemSites"]
 THEOREMS = [
     "to_tuple_spec", "to_tuple_range", "from_ticks_range", "from_tuple_to_tuple", "to_tuple_from_tuple",
     "from_tuple_rejects", "cvi_roundtrip", "pickle_roundtrip", "init_check_range",
     "dt_from_ticks_range", "dt_to_tuple_eq", "dt_from_tuple_to_tuple", "dt_from_tuple_rejects",
     "dt_from_offset_ticks", "dt_pickle_roundtrip", "cvi_layout", "record_bytes", "record_roundtrip",
+    # tier T29: the element chains at every store / load site of the two array classes (Gen/BtElemSites)
+    "store_chain_eq_model", "gen_store_sites_eq_model", "dt_from_tuple_eq", "load_chain_eq_model", "gen_load_sites_eq_model",
+    "gen_array_element_roundtrip", "gen_sites_cover", "store_chain_refusals",
 ]
 RULE = ("tick values from the 128-bit edge lattice (powers of two ±2, int64/uint64 limits, fractions at decimal "
         "boundaries, out-of-range integers) plus seeded random values; each value goes through every entry path "
@@ -151,21 +154,54 @@ def check_arrays(ctx, values: list[int], bt):
         sl = arr[1::2]
         if [x.ticks for x in sl] != values[1::2]:
             ctx.violation(path=f"{acls.__name__}.slice", observed="slice differs", required="values[1::2]")
-        # assignment / insertion into a second array
-        b = acls([cls.from_ticks(0)] * 3)
-        for t in values[:200]:
-            b[1] = cls.from_ticks(t)
-            if b[1].ticks != t or b[0].ticks != 0 or b[2].ticks != 0:
-                ctx.violation(path=f"{acls.__name__}.setitem", ticks=t, observed=b[1].ticks, required=t)
+        # every statement that writes records (the store sites of Gen/BtElemSites): the single-element assignment, `insert`, and the
+        # shrinking / growing / equal-length / extended branches of slice assignment, each on its own array; an exception on a valid
+        # call is a value that did not survive, not a harness problem
+        def pack(ts):
+            return b"".join(struct.pack("<Qq", t % T64, t // T64) for t in ts)
+
+        def site(label, start, op, model):
+            a = acls([cls.from_ticks(x) for x in start])
+            want_l = list(start)
+            model(want_l)
+            o = outcome(lambda: op(a))
+            got = [x.ticks for x in a] if o[0] == "ok" else None
+            if o[0] != "ok" or got != want_l or a._array.tobytes() != pack(want_l):
+                ctx.violation(path=f"{acls.__name__}.{label}", ticks=want_l, observed=(show(o)[:160] if o[0] != "ok" else str(got)),
+                              required=f"the array holds exactly {want_l}, bit-exact records")
+                return False
+            return True
+
+        E = cls.from_ticks
+        for k in range(0, min(len(values), 200), 4):
+            v = values[k:k + 4]
+            if len(v) < 4:
+                break
+            ok = (site("setitem", [0, 0, 0], lambda a: a.__setitem__(1, E(v[0])), lambda l: l.__setitem__(1, v[0]))
+                  and site("setitem-negative", [0, 0, 0], lambda a: a.__setitem__(-1, E(v[1])), lambda l: l.__setitem__(-1, v[1]))
+                  and site("insert", [v[0], v[1]], lambda a: (a.insert(0, E(v[2])), a.insert(5, E(v[3])), a.insert(-1, E(v[0]))),
+                           lambda l: (l.insert(0, v[2]), l.insert(5, v[3]), l.insert(-1, v[0])))
+                  and site("slice-assign grow", [v[3], 1], lambda a: a.__setitem__(slice(1, 2), [E(x) for x in v]),
+                           lambda l: l.__setitem__(slice(1, 2), list(v)))
+                  and site("slice-assign grow from empty", [v[0]], lambda a: a.__setitem__(slice(0, 0), [E(x) for x in v[1:]]),
+                           lambda l: l.__setitem__(slice(0, 0), list(v[1:])))
+                  and site("slice-assign shrink", [1, 2, 3, v[0]], lambda a: a.__setitem__(slice(0, 3), [E(v[1])]),
+                           lambda l: l.__setitem__(slice(0, 3), [v[1]]))
+                  and site("slice-assign equal", [1, 2, v[0]], lambda a: a.__setitem__(slice(0, 2), [E(v[1]), E(v[2])]),
+                           lambda l: l.__setitem__(slice(0, 2), [v[1], v[2]]))
+                  and site("slice-assign extended", [1, v[3], 3, 4], lambda a: a.__setitem__(slice(None, None, 2), [E(v[0]), E(v[1])]),
+                           lambda l: l.__setitem__(slice(None, None, 2), [v[0], v[1]]))
+                  and site("slice-assign reversed", [1, v[3], 3], lambda a: a.__setitem__(slice(None, None, -1), [E(v[0]), E(v[1]), E(v[2])]),
+                           lambda l: l.__setitem__(slice(None, None, -1), [v[0], v[1], v[2]])))
+            if not ok:
                 break
         c = acls()
-        for t in values[:100]:
-            c.insert(0, cls.from_ticks(t))
-        if [x.ticks for x in c] != list(reversed(values[:100])):
-            ctx.violation(path=f"{acls.__name__}.insert", observed="insert sequence differs", required="reversed values")
-        c[0:0] = objs[:50]
-        if [x.ticks for x in c][:50] != values[:50]:
-            ctx.violation(path=f"{acls.__name__}.slice-assign", observed="differs", required="values[:50]")
+        o = outcome(lambda: [c.insert(0, cls.from_ticks(t)) for t in values[:100]])
+        if o[0] != "ok" or [x.ticks for x in c] != list(reversed(values[:100])):
+            ctx.violation(path=f"{acls.__name__}.insert", observed="insert sequence differs" if o[0] == "ok" else show(o)[:160], required="reversed values")
+        o = outcome(lambda: c.__setitem__(slice(0, 0), objs[:50]))
+        if o[0] != "ok" or [x.ticks for x in c][:50] != values[:50]:
+            ctx.violation(path=f"{acls.__name__}.slice-assign", observed="differs" if o[0] == "ok" else show(o)[:160], required="values[:50]")
         # the array itself (and slices / copies of it) as the source of a slice assignment, an extension, an insertion: the records
         # written are the values the source had when the call was made
         small = values[:5]
